@@ -1,6 +1,8 @@
 package script
 
 import (
+	"os"
+	"sync"
 	"time"
 
 	"verif/harness/internal/vrun"
@@ -8,15 +10,58 @@ import (
 
 // Run is the C06 check.
 func Run(c *vrun.Ctx) error {
+	c.Ev.Coverage.Rule = "TLC evaluates the reference interpreter of ScriptVM.tla / ScriptSeq.tla on (a) every program of the tier's length over the token alphabets " +
+		"(MCProg: grown token by token, a failed prefix is not extended) from every initial stack of the run, as bare scriptPubKey, P2WSH witness script and tapscript leaf, " +
+		"under every flag set block validation reaches and the relay flag set; (b) every opcode byte and push form over a set of operand stacks (unit sweep); " +
+		"(c) signature stacks and programs with real keys and signatures; (d) CLTV / CSV over transaction contexts; (e) limit programs (MCPump); (f) whole-spend sequencing scenarios (MCSeq). " +
+		"Every state is concretised to real scripts, keys, signatures and a transaction and run through txscript.NewEngine + Step() / Execute(); after every step the stacks, at the end the verdict are compared. " +
+		"distinct_nontrivial counts distinct (mode, last token, outcome class, verdict) tuples, pump outcomes and (scenario, flag set) pairs."
+	c.Assume("TLC evaluates the specification's operators correctly; the reference semantics are those of Bitcoin Core's interpreter.cpp as transcribed in ScriptVM.tla / ScriptSeq.tla")
+	c.Assume("signature mathematics, signature hashes (C07) and taproot commitment arithmetic are not re-implemented: signatures are made with btcec over the hashes txscript computes; an abstract signature is valid for exactly one (key, sigversion, code position)")
+	c.Assume("hash opcodes are injective on the elements used (no collisions among the concretised values; checked for equal lengths at concretisation)")
 	b := newBinder(c)
-	runs := []progRun{
-		{name: "core3", maxLen: 3, alpha: "core", init: "empty", cfg: "std", workers: 5, timeout: 10 * time.Minute},
-		{name: "unit", maxLen: 1, alpha: "all", init: "mid2", cfg: "std", workers: 5, timeout: 10 * time.Minute},
+	// several JVMs run side by side on a shared machine: keep their helper threads few
+	os.Setenv("_JAVA_OPTIONS", "-XX:ParallelGCThreads=2 -XX:CICompilerCount=2")
+	q, th := c.Tier != "thorough", c.Thorough
+	_ = q
+	tm := 25 * time.Minute
+	var lanes [][]func() error
+	prog := func(p progRun) func() error { return func() error { return b.runProg(p) } }
+	if !th {
+		lanes = [][]func() error{
+			{prog(progRun{name: "quick", runs: []string{"small3", "unitq", "core2", "lock", "sigu", "sig2"}, workers: 4, timeout: tm})},
+			{b.runSeq},
+			{b.runPumps},
+		}
+	} else {
+		lanes = [][]func() error{
+			{prog(progRun{name: "thorough-a", runs: []string{"core3", "sig3", "lock", "sigu"}, workers: 3, timeout: tm})},
+			{prog(progRun{name: "thorough-b", runs: []string{"unit", "small4", "core2m"}, workers: 3, timeout: tm})},
+			{b.runSeq, b.runPumps},
+		}
 	}
-	for _, p := range runs {
-		if err := b.runProg(p); err != nil {
+	var wg sync.WaitGroup
+	errs := make([]error, len(lanes))
+	for i, lane := range lanes {
+		wg.Add(1)
+		go func(i int, lane []func() error) {
+			defer wg.Done()
+			for _, f := range lane {
+				if err := f(); err != nil {
+					errs[i] = err
+					return
+				}
+			}
+		}(i, lane)
+	}
+	wg.Wait()
+	for _, err := range errs {
+		if err != nil {
 			return err
 		}
 	}
+	c.Ev.Coverage.Exhaustive = true
+	c.Ev.Coverage.Explanation = "exhaustive means: TLC enumerated the complete state space of each bounded configuration (all programs up to the tier's length over the stated alphabets, " +
+		"initial stacks, modes and flag sets; all pumps; all scenarios) and every state was replayed into txscript. It does not mean all scripts."
 	return nil
 }
